@@ -360,6 +360,11 @@ def unit_union(U):
         feats = build(rows)
         runs, ext = union_runs(feats)
         n_alt[0] += 1
+        if n_alt[0] % 5 == 3:
+            # features that never were in a database (parsed from lines, built by hand) have no id
+            for f in feats:
+                f.id = None
+            note = (note + "; " if note else "") + "input features with id None"
         k = n_alt[0] % 4
         if k == 0:
             K.check(feats, runs, exp_extents=ext, note=note)
